@@ -1179,4 +1179,109 @@ theorem consumed_gen (pinned : Bool) (limit : Int) (stops : List Bytes) :
             have := h5 hn
             simpa using this
 
+/-! ## H. the response channel: what the reader receives does not depend on its schedule -/
+
+theorem Chan.send_all (cap : Nat) (c : Chan) (x : Bytes) :
+    (c.send cap x).recv ++ (c.send cap x).buf = c.recv ++ c.buf ++ [x] := by
+  unfold Chan.send
+  split
+  · simp
+  · split
+    · rename_i h; simp [h]
+    · rename_i h; simp [h]
+
+theorem Chan.read_all (c : Chan) (n : Nat) : (c.read n).recv ++ (c.read n).buf = c.recv ++ c.buf := by
+  simp [Chan.read]
+
+theorem Chan.drain_buf (c : Chan) : c.drain.buf = [] := by
+  simp [Chan.drain, Chan.read]
+
+theorem Chan.drain_all (c : Chan) : c.drain.recv ++ c.drain.buf = c.recv ++ c.buf :=
+  Chan.read_all c _
+
+theorem Chan.foldl_send_all (cap : Nat) : ∀ (l : List Bytes) (c : Chan),
+    (l.foldl (Chan.send cap) c).recv ++ (l.foldl (Chan.send cap) c).buf = c.recv ++ c.buf ++ l := by
+  intro l
+  induction l with
+  | nil => intro c; simp
+  | cons x l ih =>
+    intro c
+    simp only [List.foldl_cons]
+    rw [ih, Chan.send_all]; simp
+
+theorem Chan.deliver_all (cap : Nat) (c : Chan) (st st' : St) (new : List Bytes)
+    (hc : c.recv ++ c.buf = st.out) (hout : st'.out = st.out ++ new) :
+    (c.deliver cap st st').recv ++ (c.deliver cap st st').buf = st'.out := by
+  unfold Chan.deliver
+  rw [Chan.foldl_send_all, hout, hc]
+  simp
+
+theorem flush_out_grows (st : St) : ∃ new, st.flush.out = st.out ++ new := by
+  rcases flush_out_chunks st with h | ⟨c, h, _, _⟩
+  · exact ⟨[], by simp [h]⟩
+  · exact ⟨[c], h⟩
+
+theorem finish_out_grows (st : St) (r : Reason) (c : Cause) : ∃ new, (st.finish r c).out = st.out ++ new := by
+  rw [finish_out]; exact flush_out_grows st
+
+theorem stepPiece_out_grows (pinned : Bool) (stops : List Bytes) (st : St) (p : Bytes) :
+    ∃ new, (stepPiece pinned stops st p).out = st.out ++ new := by
+  rcases stepPiece_cases pinned stops st p with ⟨s, _, h⟩ | ⟨_, _, h⟩ | ⟨_, _, _, h⟩
+  · rw [h]; exact finish_out_grows _ _ _
+  · rw [h]; exact ⟨[], by simp [St.push]⟩
+  · rw [h]; exact flush_out_grows _
+
+/-- **The consumer's schedule does not matter.**  For every channel capacity, every schedule of the
+    reader (how many chunks it takes after each token, `0` = stalled, for how long) and every
+    script: the loop ends in the same state as with no channel at all (`run`), everything streamed
+    is either received or still in the buffer, in order, and once the sequence is done the reader
+    has received exactly `run`'s chunks. -/
+theorem runSched_eq_run (pinned : Bool) (limit : Int) (stops : List Bytes) (cap tail : Nat) :
+    ∀ (evs : List Ev) (st : St) (c : Chan) (sched : List Nat), st.done = none → c.recv ++ c.buf = st.out →
+      (runSched pinned limit stops cap tail st c sched evs).1 = run pinned limit stops st evs ∧
+      (runSched pinned limit stops cap tail st c sched evs).2.recv ++
+        (runSched pinned limit stops cap tail st c sched evs).2.buf = (run pinned limit stops st evs).out ∧
+      ((run pinned limit stops st evs).done.isSome = true →
+        (runSched pinned limit stops cap tail st c sched evs).2.buf = []) := by
+  intro evs
+  induction evs with
+  | nil =>
+    intro st c sched hd hc
+    unfold runSched run
+    split
+    · obtain ⟨new, hnew⟩ := finish_out_grows st .length .limit
+      refine ⟨rfl, ?_, fun _ => Chan.drain_buf _⟩
+      simp only []
+      rw [Chan.drain_all]; exact Chan.deliver_all cap c st _ new hc hnew
+    · exact ⟨rfl, hc, fun h => by rw [hd] at h; cases h⟩
+  | cons ev rest ih =>
+    intro st c sched hd hc
+    unfold runSched run
+    split
+    · obtain ⟨new, hnew⟩ := finish_out_grows st .length .limit
+      refine ⟨rfl, ?_, fun _ => Chan.drain_buf _⟩
+      simp only []
+      rw [Chan.drain_all]; exact Chan.deliver_all cap c st _ new hc hnew
+    · cases ev with
+      | eos =>
+        obtain ⟨new, hnew⟩ := finish_out_grows { st with numPredicted := st.numPredicted + 1 } .stop .eos
+        refine ⟨rfl, ?_, fun _ => Chan.drain_buf _⟩
+        simp only []
+        rw [Chan.drain_all]; exact Chan.deliver_all cap c st _ new hc hnew
+      | piece p =>
+        obtain ⟨new, hnew⟩ := stepPiece_out_grows pinned stops st p
+        have hdel := Chan.deliver_all cap c st _ new hc hnew
+        simp only []
+        split
+        · refine ⟨rfl, ?_, fun _ => Chan.drain_buf _⟩
+          rw [Chan.drain_all]; exact hdel
+        · rename_i hdone
+          have hd' : (stepPiece pinned stops st p).done = none := by
+            cases h : (stepPiece pinned stops st p).done with
+            | none => rfl
+            | some r => rw [h] at hdone; simp at hdone
+          cases sched with
+          | nil => exact ih _ _ [] hd' (by rw [Chan.read_all]; exact hdel)
+          | cons r rs => exact ih _ _ rs hd' (by rw [Chan.read_all]; exact hdel)
+
 end OllamaVerif.Stop
